@@ -16,7 +16,7 @@ FU = ["(*audio.square).tickLength", "(*audio.wave).tickLength", "(*audio.noise).
 AU = ["WriteNR11", "WriteNR21", "WriteNR31", "WriteNR41", "WriteNR12", "WriteNR22", "WriteNR30", "WriteNR42", "WriteNR14", "WriteNR24", "WriteNR34",
       "WriteNR44", "WriteNR52", "tickFrameSequencer"]
 KEEP = keep_labels({"count", "idle", "value", "overflow", "fine", "on", "length", "status", "dac", "off", "lenable", "notrigger", "trigger", "turnon",
-                    "seq", "redundant", "step", "len1", "len2", "len3", "len4", "expire2", "expire3", "expire4", "noturnon", "ok"})
+                    "seq", "redundant", "step", "envelope", "sweepinit", "level", "flag", "nosweep", "noenvelope", "expire1", "len1", "len2", "len3", "len4", "expire2", "expire3", "expire4", "noturnon", "ok"})
 
 
 def tasks(ctx):
